@@ -1,6 +1,6 @@
 package main
 
-// Thread-modular mode (lockset discipline, havoc on acquire) and ghost ledgers.
+// Lock discipline (lockset obligations, C08), thread-modular havoc on acquire, ghost ledgers.
 
 import (
 	"go/types"
@@ -8,11 +8,152 @@ import (
 	"golang.org/x/tools/go/ssa"
 )
 
-// onAcquire: in T-mode every field guarded by the acquired mutex is havocked.
-func (x *Exec) onAcquire(fr *Frame, st *State, mu Val, write bool) {}
+type guardInfo struct {
+	arr   string // lock array base name "memidm.MemIdm.grpMu"
+	owner Term
+	field string
+}
 
-// raceCheck: in T-mode a guarded field may only be accessed with its lock held.
-func (x *Exec) raceCheck(fr *Frame, st *State, in ssa.Instruction, p Val, write bool) {}
+func (x *Exec) typeSpecOfStruct(t types.Type) *TypeSpec {
+	n, ok := types.Unalias(t).(*types.Named)
+	if !ok || n.Obj().Pkg() == nil {
+		return nil
+	}
+	return x.specs.Types[n.Obj().Pkg().Name()+"."+n.Obj().Name()]
+}
+
+func (ts *TypeSpec) props() []string {
+	seen := map[string]bool{"C08": true}
+	out := []string{"C08"}
+	for _, cl := range ts.Invs {
+		for _, p := range cl.Props {
+			if !seen[p] {
+				seen[p] = true
+				out = append(out, p)
+			}
+		}
+	}
+	return out
+}
+
+func (x *Exec) heldTerm(st *State, arr string, owner Term, write bool) Term {
+	w := Select(st.hget("L."+arr+".w", SArr(SRef, SBool)), owner)
+	if write {
+		return w
+	}
+	r := Select(st.hget("L."+arr+".r", SArr(SRef, SInt)), owner)
+	return Or(w, app(SBool, ">", r, IntLit(0)))
+}
+
+// raceCheck: a field declared guarded_by may only be accessed with its lock held in the right
+// mode, unless the object has not been published yet.
+func (x *Exec) raceCheck(fr *Frame, st *State, in ssa.Instruction, p Val, write bool) {
+	if p.K != VFieldPtr {
+		return
+	}
+	ts := x.typeSpecOfStruct(p.ST)
+	if ts == nil {
+		return
+	}
+	fname := p.FV.Name()
+	if st.fresh[p.T.S] {
+		return
+	}
+	if mu, ok := ts.GuardedBy[fname]; ok {
+		arr := typeName(p.ST) + "." + mu
+		kind := "race-read"
+		if write {
+			kind = "race-write"
+		}
+		label := x.oblLabels[in]
+		if label == "" {
+			label = x.instrText(fr, in)
+		}
+		o := x.newObl(fr.fn, kind, typeName(p.ST)+"."+fname+" @ "+label, ts.props(), x.posStr(in.Pos()))
+		st.check(o, x.heldTerm(st, arr, p.T, write))
+		return
+	}
+	if ts.Immutable[fname] && write {
+		label := x.oblLabels[in]
+		o := x.newObl(fr.fn, "immutable-write", typeName(p.ST)+"."+fname+" @ "+label, ts.props(), x.posStr(in.Pos()))
+		st.check(o, TFalse)
+	}
+}
+
+// noteGuard remembers which lock guards the contents of a map loaded from a guarded field.
+func (x *Exec) noteGuard(st *State, p Val, v Val) {
+	if p.K != VFieldPtr || v.K != VTerm || v.T.Sort != SRef {
+		return
+	}
+	if _, ok := types.Unalias(p.FV.Type()).Underlying().(*types.Map); !ok {
+		return
+	}
+	ts := x.typeSpecOfStruct(p.ST)
+	if ts == nil {
+		return
+	}
+	if mu, ok := ts.GuardedBy[p.FV.Name()]; ok {
+		if st.guards == nil {
+			st.guards = map[string]guardInfo{}
+		}
+		st.guards[v.T.S] = guardInfo{arr: typeName(p.ST) + "." + mu, owner: p.T, field: typeName(p.ST) + "." + p.FV.Name()}
+	}
+}
+
+// mapAccessCheck: contents of a guarded map need the lock too.
+func (x *Exec) mapAccessCheck(fr *Frame, st *State, in ssa.Instruction, m Val, write bool) {
+	if m.K != VTerm {
+		return
+	}
+	g, ok := st.guards[m.T.S]
+	if !ok || st.fresh[m.T.S] || st.fresh[g.owner.S] {
+		return
+	}
+	kind := "race-read"
+	if write {
+		kind = "race-write"
+	}
+	label := x.oblLabels[in]
+	if label == "" {
+		label = x.instrText(fr, in)
+	}
+	o := x.newObl(fr.fn, kind, "contents of "+g.field+" @ "+label, []string{"C08"}, x.posStr(in.Pos()))
+	st.check(o, x.heldTerm(st, g.arr, g.owner, write))
+}
+
+// onAcquire: in T-mode every field guarded by the acquired mutex is havocked.
+func (x *Exec) onAcquire(fr *Frame, st *State, mu Val, write bool) {
+	if !x.tmode || mu.K != VFieldPtr {
+		return
+	}
+	ts := x.typeSpecOfStruct(mu.ST)
+	if ts == nil {
+		return
+	}
+	sstruct := types.Unalias(mu.ST).Underlying().(*types.Struct)
+	for i := 0; i < sstruct.NumFields(); i++ {
+		f := sstruct.Field(i)
+		if ts.GuardedBy[f.Name()] != mu.FV.Name() {
+			continue
+		}
+		x.havocField(st, mu.ST, mu.T, f.Name())
+		if mt, ok := types.Unalias(f.Type()).Underlying().(*types.Map); ok {
+			// the contents of a guarded map are guarded too
+			mv := st.loadField(mu.ST, f, mu.T)
+			dom, domS, vals, valS, ln := st.mapArrs(mt)
+			d := st.hget(dom, domS)
+			st.hset(dom, Store(d, mv.T, x.enc.Fresh("acq.dom", elemSort(domS))))
+			for k := range vals {
+				a := st.hget(vals[k], valS[k])
+				st.hset(vals[k], Store(a, mv.T, x.enc.Fresh("acq.vals", elemSort(valS[k]))))
+			}
+			l := st.hget(ln, SArr(SRef, SInt))
+			st.hset(ln, Store(l, mv.T, x.enc.Fresh("acq.len", SInt)))
+		}
+	}
+}
 
 // ledgerUpdate: entry ledger maintenance on children maps.
-func (x *Exec) ledgerUpdate(fr *Frame, st *State, in ssa.Instruction, mt *types.Map, m, key Val, v *Val) {}
+func (x *Exec) ledgerUpdate(fr *Frame, st *State, in ssa.Instruction, mt *types.Map, m, key Val, v *Val) {
+	x.mapAccessCheck(fr, st, in, m, true)
+}
